@@ -8,12 +8,18 @@ class Check(EngineCheck):
     prop = "C02"
     # Props/C01Gen.lean imports Props/C02.lean; it holds the engine half of C09 ("a command re-runs exactly when
     # its definition changed": reason 1 of C02_reason_true over histories in which the client program changes)
-    module = "LLBuild.Props.C01Gen"
+    module = "LLBuild.Props.C02All"
     theorems = [E + "C02_once", E + "C02_create_needs_reason", E + "C02_reason_true",
                 E + "C02_interrupted_is_never_built", E + "C02_invalid_is_rule_verdict", E + "C02_computedAt_changes_only_on_change",
                 E + "C02_null_build_runs_nothing", E + "C02_null_build_after_build", E + "engine_fingerprint_matches_model",
                 E + "C09_changed_definition_reruns", E + "C09_changed_definition_signature_differs", E + "C09_changed_definition_signature_differs_valid",
-                E + "C09_unchanged_definition_needs_other_reason"]
+                E + "C09_unchanged_definition_needs_other_reason",
+                # the concrete engine model: at most once (refinement + C02_once), and the executed set of a successful
+                # build under ANY schedule is exactly the schedule-free reference set MustRun (in-order scan of recorded
+                # dependencies up to the first changed one) — the "only if" of the property with its converse
+                "LLBuild.Refine.EngineImpl_sound_C02_once", "LLBuild.Refine.EngineImpl_sound_C06_executed_reference",
+                "LLBuild.Refine.EngineImpl_sound_C06_same_executed_set", "LLBuild.Refine.EngineImpl_sound_C06_in_order",
+                "LLBuild.Refine.monitor_accepts_out_of_order"]
     mix = [(0.45, {}), (0.2, {"cancel": True}), (0.15, {"threads": True}), (0.2, {"reprogram": True})]
     budget = (300, 3000)
     assumptions = EngineCheck.assumptions + [
